@@ -94,6 +94,13 @@ def padTo {α} (fill : α) (target : Nat) (xs : List α) : List α :=
 def padToSwapped {α} (fill : α) (target : Nat) (xs : List α) : List α :=
   fPad fill (padAfter target xs.length).toNat (padBefore target xs.length).toNat xs
 
+/-- `crop_to_largest` (`direct/data/bbox.py`), one axis: every item is cropped to the bounding box
+`crop_start = -(max_shape - shape) // 2` (unary minus binds tighter than `//`: this is `floor(-(max - n) / 2)`
+`= -ceil((max - n) / 2)`), `size = max_shape`; the out-of-range part is filled with `pad_value`. -/
+def cropToLargestStart (mx n : Int) : Int := (-(mx - n)) / 2
+def cropToLargest1 {α} (fill : α) (mx : Nat) (xs : List α) : BBoxResult α :=
+  cropToBbox fill xs (cropToLargestStart mx xs.length) mx
+
 /-- `complex_center_crop`: bbox start for one cropped axis and the validity test
 (`all(_ >= 0 for _ in bbox[:ndim])`). -/
 def cccStart (n s : Int) : Int := (n - s) / 2
